@@ -170,6 +170,43 @@ def run(chk):
         return "mask, period counter update_every - 1, step count 0"
     chk.run("C16.R6", "jinns.data._DataGenerators:_check_and_set_rar_parameters", {}, go_ctor, construct="initial RAR state")
 
+    # the constructors hand each family ITS OWN total and start counts (time: nt / nt_start, space: n / n_start)
+    def go_ctor_families(cname):
+        from ..genenv import rar_params
+        from ._rar_common import nonzero_value
+        G = S('ode').G
+        key = Sym('key')
+        box = dict(min_pts=(K('min0'), K('min1')), max_pts=(K('max0'), K('max1')))
+        rp = rar_params()
+        if cname == "DataGeneratorODE":
+            gen = G.cls(cname)(key, 10, K('tmin'), K('tmax'), 2, rar_parameters=rp, nt_start=5)
+            fam = [("p_times", "nt_start", 10, 5)]
+        elif cname == "CubicMeshPDEStatio":
+            gen = G.cls(cname)(key=key, n=8, nb=None, omega_batch_size=2, omega_border_batch_size=None, dim=2, rar_parameters=rp, n_start=3, **box)
+            fam = [("p_omega", "n_start", 8, 3)]
+        else:
+            gen = G.cls(cname)(key=key, n=8, nb=None, omega_batch_size=2, omega_border_batch_size=None, dim=2, rar_parameters=rp, n_start=3,
+                               temporal_batch_size=2, tmin=K('tmin'), tmax=K('tmax'), nt=10, nt_start=5, **box)
+            fam = [("p_times", "nt_start", 10, 5), ("p_omega", "n_start", 8, 3)]
+        for mask, startf, total, start in fam:
+            got_start = gen.fields[startf]
+            if lift(got_start) != lift(start):
+                raise Violation(f"{cname}.{startf}", f"{startf} = {got_start} after construction", f"the caller's {start}")
+            p = as_sym(gen.fields[mask])
+            if not is_sym(p, 'at_set', 3):
+                raise Inconclusive(f"{cname}.{mask}: initial mask idiom outside the rule's vocabulary: {str(p)[:160]}")
+            base, idx, val = p.args
+            if not (isinstance(base, tuple) and base[0] == 'AT' and base[1] == (total,) and all(lift(e).is_zero() for e in base[2])):
+                raise Violation(f"{cname}.{mask}", f"mask base {str(base)[:100]}", f"zeros({total}) (one entry per pre-allocated point of this family)")
+            if idx != ('slice', None, start, None):
+                raise Violation(f"{cname}.{mask}", f"entries {idx} active", f"the first {start} ({startf})")
+            if not nonzero_value(val):
+                raise Violation(f"{cname}.{mask}", f"initial probability {val}", "non-zero")
+        return "; ".join(f"{m}: first {st} of {tot} active" for m, _, tot, st in fam)
+    for cname in ("DataGeneratorODE", "CubicMeshPDEStatio", "CubicMeshPDENonStatio"):
+        chk.run("C16.R6", f"jinns.data._DataGenerators:{cname}.__post_init__", {"n": 8, "n_start": 3, "nt": 10, "nt_start": 5},
+                (lambda cname=cname: go_ctor_families(cname)), construct=f"constructor RAR state[{cname}]")
+
     for kind in KINDS:
         def go_init(kind=kind):
             s = S(kind)
@@ -215,17 +252,18 @@ def run(chk):
 # R7: how the training loop drives the refinement ("steps happen exactly at iterations start + k * update_every" needs the
 # trigger to be asked once per iteration, with the index of that iteration)
 # ---------------------------------------------------------------------------------------------------------------------
-def run_solve_trigger(chk):
+def run_solve_trigger(chk, rule_id="C16.R7"):
     from ._solve_common import SolveAnalysis
     from ..solveenv import SOLVE, GenToken
-    chk.rule("C16.R7", "solve calls trigger_rar once per iteration with that iteration's index (the index at which the loss is "
-                       "recorded), the generator advanced by this iteration's draw, and keeps the generator it returns", floor=2)
+    chk.rule(rule_id, "solve calls trigger_rar once per iteration with that iteration's index (the index at which the loss is "
+                       "recorded), the parameters just updated, the generator advanced by this iteration's draw, and keeps the "
+                       "generator it returns", floor=2)
     for validation in (False, True):
         def go(validation=validation):
             calls = []
 
             def trigger_stub(i, loss, params, data, *step_fns, **step_kw):
-                calls.append((i, data))
+                calls.append((i, data, params))
                 return loss, params, GenToken(f"rar({data._name})", data._make_batch, data._step, data._attrs)
 
             def init_stub(data):
@@ -237,7 +275,12 @@ def run_solve_trigger(chk):
             c, out = A.step()
             if len(calls) != 1:
                 raise Violation("trigger_rar calls", f"{len(calls)} calls in one iteration", "exactly one")
-            i_seen, data_seen = calls[0]
+            i_seen, data_seen, params_seen = calls[0]
+            spec = A.spec_step(c)
+            from ._solve_common import _norm
+            if not same(_norm(params_seen), _norm(spec['params'])):
+                raise Violation("trigger_rar parameters", f"the refinement ranks its candidates with {str(params_seen)[:160]}",
+                                "the parameters just updated by this iteration (the current network)")
             i0 = c[0]
             if lift(i_seen) != lift(i0):
                 raise Violation("trigger_rar iteration index", f"trigger_rar is called with {lift(i_seen)} during iteration {lift(i0)}",
@@ -249,4 +292,4 @@ def run_solve_trigger(chk):
             if not (isinstance(d_out, GenToken) and d_out._name == f"rar({d_in._name})"):
                 raise Violation("carried generator", f"{d_out!r}", "the generator returned by trigger_rar")
             return "one call per iteration, index i, advanced generator in, returned generator carried"
-        chk.run("C16.R7", f"{SOLVE}:solve._one_iteration (Trigger RAR)", {"validation": validation}, go, construct="trigger call in the loop")
+        chk.run(rule_id, f"{SOLVE}:solve._one_iteration (Trigger RAR)", {"validation": validation}, go, construct="trigger call in the loop")
